@@ -44,7 +44,7 @@ type Layout struct {
 	Exec     string // "single-file" | "follow-schema"
 	Resolver string // "single-file" | "follow-schema" | "none"
 	Worker   int    // exec.worker_limit: 0 | 2
-	Models   string // "generated" | "autobind"
+	Models   string // "generated" | "autobind" (hand-written package probe/hand) | "autobind-self" (autobind names the package that also receives models_gen.go; a few hand-written types live there)
 	ModelPkg string // where modelgen writes: "separate" (graph/model, package model) | "same" (graph/models_gen.go, the exec package)
 }
 
@@ -105,7 +105,7 @@ func allLayouts() []Layout {
 	for _, e := range []string{"single-file", "follow-schema"} {
 		for _, r := range []string{"single-file", "follow-schema", "none"} {
 			for _, w := range []int{0, 2} {
-				for _, m := range []string{"generated", "autobind"} {
+				for _, m := range []string{"generated", "autobind", "autobind-self"} {
 					for _, p := range []string{"separate", "same"} {
 						out = append(out, Layout{e, r, w, m, p})
 					}
@@ -208,8 +208,15 @@ func (c Config) YAML() string {
 			}
 		}
 	}
-	if c.Layout.Models == "autobind" {
+	switch c.Layout.Models {
+	case "autobind":
 		b.WriteString("autobind:\n  - probe/hand\n")
+	case "autobind-self":
+		if c.Layout.ModelPkg == "same" {
+			b.WriteString("autobind:\n  - probe/graph\n")
+		} else {
+			b.WriteString("autobind:\n  - probe/graph/model\n")
+		}
 	}
 	keys := append([]string(nil), c.Dev...)
 	sort.Strings(keys)
